@@ -474,7 +474,7 @@ pub fn mutate(rng: &mut Rng, b: &[u8], other: &[u8]) -> Vec<u8> {
             continue;
         }
         let i = rng.below(v.len() as u64) as usize;
-        match rng.below(12) {
+        match rng.below(13) {
             0 => v[i] ^= 1 << rng.below(8),
             1 => v[i] = rng.u8(),
             2 => v.truncate(i),
@@ -515,6 +515,16 @@ pub fn mutate(rng: &mut Rng, b: &[u8], other: &[u8]) -> Vec<u8> {
                 if v.len() > 3 {
                     let x = *rng.pick(&[0u16, 1, 11, 12, 13, 0xffff]);
                     v[2..4].copy_from_slice(&x.to_be_bytes());
+                }
+            }
+            11 => {
+                // make two 16-bit fields equal (a value that coincides with a length, an id, a type ...)
+                if v.len() >= 4 {
+                    let j = rng.below(v.len() as u64 - 1) as usize;
+                    let k = i.min(v.len() - 2);
+                    let (a, b) = (v[j], v[j + 1]);
+                    v[k] = a;
+                    v[k + 1] = b;
                 }
             }
             _ => {
